@@ -1193,6 +1193,9 @@ func TestVerifC08(t *testing.T) {
 		c08Sigs(t, out, r, big8192, nil, 1, 64)
 	}
 
+	// corpus first: the repaired Ed25519 private-key defect, on a fixed key
+	c08FixedCorpus(t, out, r)
+
 	types := []int{crypto.Ed25519, crypto.Secp256k1, crypto.ECDSA, crypto.RSA}
 	rounds := 2
 	if thorough {
@@ -1249,6 +1252,7 @@ func TestVerifC08(t *testing.T) {
 			c08SealThenMutate(t, out, r, k, ks[(i+1)%4])
 			// round 3: private-key blobs, destinations reused across two records
 			c08PrivBlobs(t, out, r, k, ktName[k.kt], every)
+			c08ImportedEd25519(t, out, r, k)
 			c08ReusedDestination(t, out, r, k, ks[(i+1)%4])
 			if round == 0 || thorough {
 				c08IDForms(out, r, k)
